@@ -560,7 +560,7 @@ impl Interp {
                         // now and then a burst on a member of a receiver set: dozens of messages queue up
                         // behind each other before the set is polled again, then nothing follows
                         let ch = self.world.senders[si].as_ref().unwrap().1;
-                        if !cfg!(miri) && matches!(self.model.chans[ch].rx, RxLoc::InSet(_)) && self.rng.chance(40) {
+                        if matches!(self.model.chans[ch].rx, RxLoc::InSet(_)) && self.rng.chance(40) {
                             let n = self.rng.range(34, 70);
                             self.bursts += 1;
                             for _ in 0..n {
